@@ -38,6 +38,21 @@ def build_model(spec: dict):
         gate_set = {CNOTGate(), RZGate(), RYGate()}
     elif gs == 'iswap_u3':
         gate_set = {ISwapGate(), U3Gate()}
+    elif gs == 'cx_u1_rx':
+        from bqskit.ir.gates import RXGate
+        from bqskit.ir.gates import U1Gate
+        gate_set = {CNOTGate(), U1Gate(), RXGate()}
+    elif gs == 'cx_u1_rx_sx':
+        from bqskit.ir.gates import RXGate
+        from bqskit.ir.gates import U1Gate
+        gate_set = {CNOTGate(), U1Gate(), RXGate(), SqrtXGate()}
+    elif gs == 'cx_rz_sx':
+        gate_set = {CNOTGate(), RZGate(), SqrtXGate()}
+    elif gs == 'cz_u3':
+        gate_set = {CZGate(), U3Gate()}
+    elif gs == 'cx_rz_rx':
+        from bqskit.ir.gates import RXGate
+        gate_set = {CNOTGate(), RZGate(), RXGate()}
     else:
         raise AssertionError(gs)
     return MachineModel(m, cg, gate_set, [d] * m)
@@ -51,7 +66,9 @@ def gen_model(rng: random.Random, n: int, d: int = 2,
         'graph': rng.choice(['line', 'ring', 'star', 'all'])
         if m > 1 else 'all',
         'gateset': rng.choice(['default', 'default', 'cz_rz_sx',
-                               'cx_rz_ry', 'iswap_u3']) if d == 2
+                               'cx_rz_ry', 'iswap_u3', 'cx_u1_rx',
+                               'cx_u1_rx_sx', 'cx_rz_sx', 'cz_u3',
+                               'cx_rz_rx']) if d == 2
         else 'default',
     }
 
